@@ -1032,6 +1032,66 @@ def sv_option_monitor(chk, tier):
             chk.violation("svopt:exception:" + mode, "state-vector option monitor raised %r" % (e,), "monitor", c)
 
 
+def refusal_monitor(chk, tier):
+    """calls that refuse their arguments (raise before computing anything) also leave the shared objects as they were, and a
+    propagation repeated afterwards returns what it returned before.  (The Coq effect model carries the calls that compute; this is
+    the differential side of GenC15.gen_refusals_leave_inputs.)"""
+    import io
+    import contextlib
+    import numpy as np
+    import quantarhei as qr
+    r = cm.rng(PID + "refuse")
+    variants = [("cRF:negative_cutoff", dict(relaxation_theory="cRF", coupling_cutoff=-0.001)),
+                ("cRF:list_cutoff", dict(relaxation_theory="cRF", coupling_cutoff=[0.001, 0.002])),
+                ("cRF_TD:negative_cutoff", dict(relaxation_theory="cRF", time_dependent=True, coupling_cutoff=-0.001)),
+                ("cRF_TD:list_cutoff", dict(relaxation_theory="cRF", time_dependent=True, coupling_cutoff=[0.001, 0.002])),
+                ("unknown_theory", dict(relaxation_theory="no_such_theory"))]
+    for k in range(2 if tier == "quick" else 12):
+        prm = gen_params(r)
+        c = {"kind": "refusal", "params": prm}
+        try:
+            with contextlib.redirect_stdout(io.StringIO()):
+                w = World(prm)
+                agg, ham, time = w.o["agg"], w.o["ham"], w.o["time"]
+
+                def reference():
+                    # an excitonic initial state propagated inside the eigenbasis context of the shared Hamiltonian
+                    rt, hh = agg.get_RelaxationTensor(time, relaxation_theory="stR")
+                    prop = qr.ReducedDensityMatrixPropagator(time, hh, rt)
+                    with qr.eigenbasis_of(ham):
+                        rho = qr.ReducedDensityMatrix(dim=ham.dim)
+                        rho.data[ham.dim - 1, ham.dim - 1] = 1.0
+                        out = prop.propagate(rho)
+                    return np.array(out.data)
+                ref0 = reference()
+                for name, kw in variants:
+                    s0_, _ = world_snapshot(w)
+                    try:
+                        agg.get_RelaxationTensor(time, **kw)
+                        refused = False
+                    except Exception:
+                        refused = True
+                    s1_, _ = world_snapshot(w)
+                    chk.count("refusal:%s:%s" % (name, "raised" if refused else "returned"))
+                    if not refused:
+                        continue          # whether the argument is refused is not what this property is about
+                    ch = sorted(f for f in set(field_of(pth) for pth in diff(s0_, s1_)) if f is not None and (f == "?" or is_input(f)))
+                    if ch:
+                        chk.violation("refusal:inputs_changed:" + name, "get_RelaxationTensor(%s) raised and left the shared objects changed: %s"
+                                      % (", ".join("%s=%r" % kv for kv in sorted(kw.items())), ch), "monitor", dict(c, variant=name))
+                    ref1 = reference()
+                    # (every passage through a basis context rounds the Hamiltonian: repeated results agree to rounding, not bitwise)
+                    if float(np.max(np.abs(ref0 - ref1))) > 1e-10:
+                        chk.violation("refusal:not_repeatable:" + name, "after the refused get_RelaxationTensor(%s) the same propagation with the same "
+                                      "inputs differs from the one before it by %g"
+                                      % (", ".join("%s=%r" % kv for kv in sorted(kw.items())), float(np.max(np.abs(ref0 - ref1)))),
+                                      "monitor", dict(c, variant=name))
+                        ref0 = ref1
+            chk.case(("refusal", k, json.dumps(prm, sort_keys=True)), True)
+        except Exception as e:
+            chk.violation("refusal:exception", "refusal monitor raised %r" % (e,), "monitor", c)
+
+
 def main():
     import multiprocessing
     chk = cm.Check(PID, args.tier)
@@ -1120,6 +1180,7 @@ def main():
                           % ([call_sig(c) for c in case["calls"]], o["obs"], which), "correspondence", case, found_input=False)
     if not args.replay:
         sv_option_monitor(chk, args.tier)
+        refusal_monitor(chk, args.tier)
     chk.finish()
 
 
